@@ -782,6 +782,10 @@ impl fmt::Display for Constraint {
             format!("{}: ", self.name)
         };
         if self.is_logic_assertion {
+            //an asserted 0/1 constant is spelled false/true, like a logic operand
+            if matches!(self.lhs, Exp::Number(_)) {
+                return write!(f, "{}{}", name, logic_operand_to_string(&self.lhs));
+            }
             write!(f, "{}{}", name, self.lhs)
         } else {
             write!(
